@@ -187,6 +187,8 @@ def cases(ctx):
     n = ctx.budget(16, 400)
     for it in range(n):
         yield {'kind': 'solve_failpoint', 'seed': int(rng.integers(0, 2 ** 31)), 'rank': int(rng.integers(1, 4))}
+    for it in range(ctx.budget(120, 4000)):
+        yield {'kind': 'prism_sys_history', 'seed': int(rng.integers(0, 2 ** 31)), 'rank': int(rng.integers(1, 3)), 'nsteps': int(rng.integers(2, 7))}
     n = ctx.budget(48, 1600)
     for it in range(n):
         yield {'kind': 'sweep', 'seed': int(rng.integers(0, 2 ** 31)), 'rank': int(rng.integers(1, 4)), 'nsteps': int(rng.integers(3, 9))}
@@ -261,7 +263,7 @@ def check_wiring(ctx, p, sp, where):
         ctx.violation('snapshot:wiring-omega-space', '%s: omega is not flagged as Fourier space' % where)
 
 
-EDITS = ['density', 'diameter', 'kT', 'potential', 'closure', 'omega', 'domain_new', 'domain_dr', 'domain_length', 'domain_dk']
+EDITS = ['density', 'diameter', 'kT', 'potential', 'closure', 'omega', 'domain_new', 'domain_dr', 'domain_length', 'domain_dk', 'potential_sigma', 'potential_sigma']
 
 
 def apply_edit(rng, s, sp, kind):
@@ -301,6 +303,12 @@ def apply_edit(rng, s, sp, kind):
         s.potential[L_(a), L_(b)] = G.mk_pot(ps)
         sp['pot'][key] = ps
         return 'potential[%s]=%s' % (key, ps)
+    if kind == 'potential_sigma':
+        # the contact distance of one pair given explicitly, IN PLACE on the object the table holds (through either key order)
+        v = float(round(G.sigma_of(sp, a, b) + float(rng.choice([0.0, 0.0, 1.0, 2.0])) * sp['dr'], 10))
+        (s.potential[L_(b), L_(a)] if rng.random() < 0.5 else s.potential[L_(a), L_(b)]).sigma = v
+        sp['pot'][key] = dict(sp['pot'][key], sigma=v)
+        return 'potential[%s].sigma=%r' % (key, v)
     if kind == 'closure':
         cs = {'t': str(rng.choice(['PY', 'HNC', 'MSA'])), 'hc': True}
         s.closure[L_(a), L_(b)] = G.mk_clo(cs)
@@ -575,6 +583,8 @@ def run_sweep(ctx, case):
             kind = str(rng.choice(EDITS))
             if sp.get('sigma_table') and rng.random() < 0.4:
                 kind = 'diameter'               # sweeps over a diameter while another pair keeps its non-additive contact distance
+            if steps and steps[-1].startswith('potential[') and '.sigma=' in steps[-1] and rng.random() < 0.6:
+                kind = 'diameter'               # a core fixed explicitly in the potential, then the diameters are swept
             if cont is not None:
                 state, sp_before = copy.deepcopy(rng.bit_generator.state), copy.deepcopy(sp)
             steps.append(apply_edit(rng, s, sp, kind))
@@ -654,6 +664,54 @@ def run_sweep(ctx, case):
     ctx.sample({'sweep': steps}, limit=2)
 
 
+def run_prism_sys_history(ctx, case):
+    """wiring-level histories on the System a PRISM object carries (no solve needed): after every createPRISM on PRISM.sys the new object
+    must be wired from what the user has specified by then - explicit sigmas (also one that EQUALS the number derived earlier) stay, sigmas
+    never given follow the current diameters"""
+    rng = np.random.default_rng(case['seed'])
+    sp = G.easy_spec(rng, rank=int(case['rank']), L=64, dr=0.1)
+    for key in sp['pot']:
+        sp['pot'][key].pop('sigma', None)
+    with np.errstate(all='ignore'):
+        p = G.build(sp).createPRISM()
+    check_wiring(ctx, p, sp, 'first object')
+    hist = []
+    for step in range(int(case['nsteps'])):
+        s2 = p.sys
+        types = sp['types']
+        a, b = sorted([str(rng.choice(types)), str(rng.choice(types))])
+        key = G.pk(a, b)
+        kind = str(rng.choice(['sigma_equal', 'sigma_equal', 'sigma_other', 'diameter', 'diameter', 'new_potential', 'kT']))
+        if kind.startswith('sigma'):
+            cur = float(G.sigma_of(sp, a, b)) if sp['pot'][key].get('sigma') is None else float(sp['pot'][key]['sigma'])
+            v = float(s2.potential[a, b].sigma) if kind == 'sigma_equal' else float(round(cur + sp['dr'], 10))     # typed as the number currently in force / another one
+            s2.potential[a, b].sigma = v
+            sp['pot'][key] = dict(sp['pot'][key], sigma=v)
+        elif kind == 'diameter':
+            t = str(rng.choice(types))
+            v = G.on_grid(rng, sp['dr'], 0.8, 1.6)
+            s2.diameter[t] = v
+            sp['d'][t] = v
+        elif kind == 'new_potential':
+            ps = G.gen_pot(rng, G.sigma_of(sp, a, b), allow=('HS', 'HCLJ', 'EXP'), strength=0.3)
+            ps.pop('sigma', None)
+            s2.potential[a, b] = G.mk_pot(ps)
+            sp['pot'][key] = ps
+        else:
+            v = float(rng.choice([0.7, 1.0, 1.3, 2.0]))
+            s2.kT = v
+            sp['kT'] = v
+        hist.append('%s[%s]' % (kind, key))
+        ctx.hook('prism_sys_history.step')
+        with np.errstate(all='ignore'):
+            p = s2.createPRISM()
+        before = len(ctx.violations)
+        check_wiring(ctx, p, sp, 'object %d created on PRISM.sys after %s' % (step + 2, hist))
+        if len(ctx.violations) > before:
+            return
+    ctx.nontrivial(case)
+
+
 def run_tutorial(ctx, case):
     """the maintainers' sweeps (one System re-specified step by step): every PRISM object is wired from the System's state at that
     moment, and creating / solving it leaves the System as it was"""
@@ -678,6 +736,8 @@ def run_case(ctx, case):
     k = case['kind']
     if k == 'tutorial':
         return run_tutorial(ctx, case)
+    if k == 'prism_sys_history':
+        return run_prism_sys_history(ctx, case)
     if k == 'omit':
         return run_omit(ctx, case)
     if k == 'snapshot':
